@@ -510,6 +510,59 @@ fn build_cases(thorough: bool, families: &str, max_cases: usize) -> Vec<Case> {
             }
         }
     }
+    if families.contains("tile") {
+        // Back-to-back and self-overlapping occurrences of needles of EVERY
+        // length class (short, around one / two vector widths, Two-Way): the
+        // needle is the length-L prefix of w^inf for a word w of p distinct
+        // letters (period p; p = L: no border), the haystack every sequence
+        // of <= 3 (thorough 4) tiles out of {needle, one period of it, its
+        // L-1 byte prefix (near miss), its last period, one filler byte, 16
+        // filler bytes}. This is where an iterator's "what do I know after
+        // the previous match" shortcuts live: adjacent matches, a candidate
+        // that overlaps the match just reported, a match closer to the
+        // haystack start / end than one needle length (after seeded change
+        // RVE: needs >= 17 byte needles, two adjacent matches and then a
+        // position inside [16, L)).
+        let lens: &[usize] = if thorough { &[2, 3, 4, 5, 7, 8, 9, 15, 16, 17, 18, 20, 24, 31, 32, 33, 34, 40, 48, 63, 64, 65, 80] } else { &[3, 5, 8, 16, 17, 20, 32, 33, 40, 65] };
+        let depth = if thorough { 4 } else { 3 };
+        for &l in lens {
+            let mut periods: Vec<usize> = vec![1, 2, 3, 5, 8, 16, 17, l / 2, l / 2 + 1, l - 1, l];
+            periods.retain(|&p| p >= 1 && p <= l);
+            periods.sort();
+            periods.dedup();
+            for &p in &periods {
+                let needle: Vec<u8> = (0..l).map(|i| b'0' + (i % p) as u8).collect();
+                let tiles: Vec<Vec<u8>> = vec![needle.clone(), needle[..p.min(l)].to_vec(), needle[..l - 1].to_vec(), needle[l - p.min(l)..].to_vec(), b"#".to_vec(), vec![b'#'; 16]];
+                let n = leak_bytes(&needle);
+                let mut idx = vec![0usize; depth];
+                for k in 1..=depth {
+                    let total = tiles.len().pow(k as u32);
+                    for code in 0..total {
+                        let mut c = code;
+                        for slot in idx.iter_mut().take(k) {
+                            *slot = c % tiles.len();
+                            c /= tiles.len();
+                        }
+                        // at least one full needle, or two partial tiles
+                        if !idx[..k].iter().any(|&t| t == 0) && k < 2 {
+                            continue;
+                        }
+                        let mut h: Vec<u8> = vec![];
+                        for &t in &idx[..k] {
+                            h.extend_from_slice(&tiles[t]);
+                        }
+                        let h = leak_bytes(&h);
+                        push(false, Source::Finder, n, h, "TILE");
+                        push(true, Source::Finder, n, h, "TILE");
+                        if k == depth {
+                            push(false, Source::Top, n, h, "TILE");
+                            push(true, Source::Top, n, h, "TILE");
+                        }
+                    }
+                }
+            }
+        }
+    }
     if cases.len() > max_cases {
         cases.truncate(max_cases);
     }
@@ -655,7 +708,7 @@ pub fn run(args: &Args, thorough: bool, total: &mut Report, bounds: &mut Map<Str
     total.merge(rep);
     total.bump_by("init-states/SF", sf_cases.load(Ordering::Relaxed));
     // (2) the table families
-    let families = args.str("families", "pad,ln,pf,zoo");
+    let families = args.str("families", "pad,ln,pf,zoo,tile");
     let cases = build_cases(thorough, &families, usize::MAX);
     let ncases = cases.len();
     let rep = mcore::par::run_chunks(cases.len() as u64, 16, |lo, hi, r| {
@@ -663,7 +716,7 @@ pub fn run(args: &Args, thorough: bool, total: &mut Report, bounds: &mut Map<Str
             walk_guarded(&cases[i as usize], r);
         }
     });
-    for fam in ["E2pad", "LN", "PF", "PF+zoo"] {
+    for fam in ["E2pad", "LN", "PF", "PF+zoo", "TILE"] {
         total.bump_by(&format!("init-states/{}", fam), cases.iter().filter(|c| c.family == fam).count() as u64);
     }
     total.merge(rep);
